@@ -34,6 +34,18 @@ register(
     "DESIGN.md §3 C05",
 )
 
+register(
+    "C08",
+    "explicit-state BFS over send histories (advance / redo / jump-back / add-on) on the real generator objects, replayed from scratch, concrete-state hashing incl. generator frame locals, batch solver as reference model",
+    "All send histories up to the depth bound (nt=4) for every solver kind x order x partition x mass x start "
+    "configuration are executed on real generators; after every transition the visible d/v columns, the Force "
+    "array and (at the last step) finalize() are compared with the batch solver on the force history in effect, "
+    "and get_f2x with the effect of each add-on. Exhaustive within depth/alphabet bounds.",
+    "Trusted: batch tsolve as reference (itself checked against closed form in C01/C17); two force and two add-on "
+    "vectors per event; histories longer than the bound and nt>4 are not explored.",
+    "DESIGN.md §3 C08",
+)
+
 
 def build():
     checks = []
